@@ -91,7 +91,7 @@ def cases(run):
     quick = run.tier == "quick"
     # (k, max exon length, all windows?)
     scopes = [(1, 6, True), (2, 4, True), (2, 6, False), (3, 3, False)] if quick else \
-             [(1, 9, True), (2, 6, True), (3, 3, True), (3, 5, False), (4, 2, False)]
+             [(1, 9, True), (2, 6, True), (3, 2, True), (3, 5, False), (4, 2, False)]
     EXHAUSTIVE_NOTE = ("every exon layout with " + ", ".join(
         f"{k} exon(s) of length 1..{m}" + (" [every window start<end over span+-1 and three empty windows, with and without expand]" if w else
                                           " [no window + 6 random windows]")
